@@ -8,6 +8,13 @@ pub struct HashMap<K, V> { m: std::collections::HashMap<K, V> }
 
 impl<K, V> HashMap<K, V> {
     pub uninterp spec fn entries(&self) -> ISet<(K, V)>;
+    /// "a lookup of k finds something" -- uninterpreted; `contains_key` and `get` agree on it (one deterministic map)
+    pub uninterp spec fn has_key(&self, k: K) -> bool;
+
+    #[verifier::external_body]
+    pub fn contains_key(&self, k: &K) -> (b: bool)
+        ensures b == self.has_key(*k),
+    { unimplemented!() }
 
     #[verifier::external_body]
     pub fn new() -> (r: Self)
@@ -22,5 +29,6 @@ impl<K, V> HashMap<K, V> {
     #[verifier::external_body]
     pub fn get(&self, k: &K) -> (r: Option<&V>)
         ensures r matches Some(v) ==> self.entries().contains((*k, *v)),
+                (r is Some) == self.has_key(*k),
     { unimplemented!() }
 }
